@@ -487,7 +487,7 @@ POOLS = {
 
 def gen(tier, rng, boost=1):
     quick = tier == "quick"
-    n = (1500 if quick else 20000) * boost
+    n = (6000 if quick else 60000) * boost
     fixed = ["1px + 2px", "(1px + 2px) * 3", "1in + 96px", "1px + 1%", "1px + var(--x)", "(var(--x) + 1px) * 2",
              "2 * (var(--x) + 1px)", "1px - (var(--x) - 2px)", "1px / (var(--x) / 2)", "(100% - 10px) / 3",
              "a + 1px", "1% - -2px", "1px + 2px + var(--x)", "var(--x) + 1px + 2px", "(var(--x))", "1px + 1s"]
